@@ -210,7 +210,9 @@ class Ctx(object):
                     self.unit)
     ob.meta.setdefault('trail', list(self.path_events))
     self.obligations.append(ob)
-    if assume_after:
+    if assume_after and not z3.is_false(z3.simplify(cond)):
+      # (a clause that is literally false on this path is recorded but not assumed, so that the
+      # clauses after it are still generated)
       self.assume(cond)
 
   def cover(self, label):
